@@ -5,6 +5,13 @@ V = os.path.dirname(os.path.dirname(os.path.abspath(__file__)))
 ids = ["C%02d" % i for i in range(1, 21)]
 baseline = json.load(open('/root/.vp/BASELINE.json'))['cmd']
 TECH = "Coq proof over a hand-written executable model + per-run checked correspondence (differential execution of the real code and the extracted model)"
+TECH_BY = {
+ "C05": "Coq proof of the stream framing over an executable model (run against yaml.go/toml.go) + round trips through bkl and independent parsers; the codecs are oracles",
+ "C08": "Coq proof that every cycle ends in an error and that the model's depth bounds are never what ends a load + execution of all tools in child processes (crash/hang/stdout discipline is a runtime fact)",
+ "C09": "Coq proof of order-independence of the map-order loops + repeated, cross-process, reverse-order and concurrent execution (the goroutine half is empirical)",
+ "C14": "Coq proof of base64 inversion and the transform equations over an executable model + correspondence with oracle tables from independent implementations",
+ "C18": "Coq proof over an executable path-level model of the root handle (run against bkl -r and Parser.SetRoot) + decoy variation and system-call trace; the OS/runtime contract is assumed",
+}
 NOTE = ("Trusted: Coq 8.16.1 kernel; no axioms (Print Assumptions: closed under the global context); extraction via ExtrOcamlBasic+ExtrOcamlString; "
         "OCaml driver; Go harness; python orchestrator. The model (coq/Model) is hand-written from the Go sources; the tie to /repo is the "
         "correspondence run of this check, which is differential testing bounded by its generators. ")
@@ -44,7 +51,7 @@ for i in ids:
         m["checks"].append({"property_id": i, "quick_cmd": "./check %s --tier quick" % i, "thorough_cmd": "./check %s --tier thorough" % i,
                             "evidence_file": "evidence/%s.json" % i, "replay_cmd_template": "./check %s --replay {path}" % i, "engine": "coq-model",
                             "level_claimed": {"category": "proof", "text": text, "design_ref": "DESIGN.md section 6, " + i},
-                            "level_note": NOTE + note, "technique": TECH})
+                            "level_note": NOTE + note, "technique": TECH_BY.get(i, TECH)})
     else:
         m["not_applicable"].append({"property_id": i, "reason": NOT_YET})
 json.dump(m, open(os.path.join(V, "MANIFEST.json"), "w"), indent=1)
